@@ -55,7 +55,7 @@ func Parse(file []byte) (*CFF, error) {
 		return nil, err
 	}
 
-	if len(out) > 1 {
+	if len(out) != 1 {
 		return nil, errors.New("only one font is allowed CFF table")
 	}
 
